@@ -188,9 +188,10 @@ def run_history(ctx, rng, ops=None, inject=None):
                                 data = FileIO.read(self_)
                                 world.write(f, new)
                                 return data
-                        m = g.parse(path=f, cache=True, cache_path=cd, file_io=Racy(f))
+                        # half of the in-flight writes hit an incremental (diff_cache) re-parse
+                        m = g.parse(path=f, cache=True, cache_path=cd, file_io=Racy(f), diff_cache=(len(log) % 2 == 0))
                     else:
-                        m = inject(lambda: g.parse(path=f, cache=True, cache_path=cd), lambda: w.write(f, new))
+                        m = inject(lambda: g.parse(path=f, cache=True, cache_path=cd, diff_cache=(len(log) % 2 == 0)), lambda: w.write(f, new))
                     wrote.add(f)
                     w.stamp_cache()
                     ctx.count('inflight_writes')
